@@ -38,7 +38,8 @@ const (
 	tickEvery    = 10 * time.Millisecond
 	infraBound   = 60 * time.Second
 	maxLateBegin = 3
-	nKeys        = 4
+	nKeys        = 3
+	maxRetired   = 4
 	probeKey     = "probe"
 )
 
@@ -137,19 +138,20 @@ const (
 )
 
 type txn struct {
-	client     int
-	path       string
-	ro         bool
-	conn       string
-	id         string
-	rec        *beginRec
-	call       *beginCall
-	overlay    map[string]*string
-	state      string
-	registered bool
-	issued     time.Time
-	queued     bool // a settle() has left this begin waiting at least once
-	epoch      int  // value of world.epoch when the begin was issued
+	client       int
+	path         string
+	ro           bool
+	conn         string
+	id           string
+	rec          *beginRec
+	call         *beginCall
+	overlay      map[string]*string
+	state        string
+	registered   bool
+	issued       time.Time
+	commitsSince int  // value of world.commits right after this transaction committed
+	queued       bool // a settle() has left this begin waiting at least once
+	epoch        int  // value of world.epoch when the begin was issued
 }
 
 func (t *txn) mode() string {
@@ -178,8 +180,10 @@ type world struct {
 	svc       *service.KevoServiceServer
 	committed map[string]string
 	cur       []*txn // current transaction record per client (nil = never began)
+	retired   []*txn // finished transactions whose client has begun a new one since; the old handles stay usable for "later use"
 	all       []*txn
 	shutdown  bool
+	commits   int // number of commits that wrote something
 	epoch     int // number of server-side cleanup calls so far
 	late      int
 	releases  []release
@@ -771,6 +775,12 @@ func (w *world) doBegin(s Step) {
 	if s.DeadlineMs > 0 && t.path != "direct" && mustBlock && w.late < maxLateBegin {
 		deadline = s.DeadlineMs
 	}
+	if old := w.cur[ci]; old != nil && old.closed() && old.rec != nil && (old.rec.tx != nil || old.id != "") {
+		w.retired = append(w.retired, old)
+		if len(w.retired) > maxRetired {
+			w.retired = w.retired[1:]
+		}
+	}
 	w.all = append(w.all, t)
 	w.cur[ci] = t
 	w.logf("begin client %d %s %s conn=%q deadline=%dms", ci, t.path, t.mode(), t.conn, deadline)
@@ -809,24 +819,39 @@ func (w *world) doBegin(s Step) {
 	w.settle()
 }
 
-// target selects the client of a use/finish step: any client with an open or a
-// finished transaction; Again prefers finished ones (later use, repeated finish).
-func (w *world) target(s Step) (int, bool) {
+// target selects the transaction of a use/finish step. Without Again: an open
+// transaction if there is one, else a finished one. With Again: a finished one
+// if there is one (later use, repeated finish), including older handles whose
+// client has meanwhile begun a new transaction, else an open one.
+func (w *world) target(s Step) *txn {
 	if s.Again {
-		if ci, ok := pick(w.clientsWhere(func(t *txn) bool { return t != nil && t.closed() }), s.C); ok {
-			return ci, true
+		var closed []*txn
+		for _, t := range w.cur {
+			if t != nil && t.closed() {
+				closed = append(closed, t)
+			}
+		}
+		closed = append(closed, w.retired...)
+		if n := len(closed); n > 0 {
+			return closed[((s.C%n)+n)%n]
 		}
 	}
-	return pick(w.clientsWhere(func(t *txn) bool { return t != nil && (t.state == stOpen || t.closed()) }), s.C)
+	if ci, ok := pick(w.clientsWhere(func(t *txn) bool { return t != nil && t.state == stOpen }), s.C); ok {
+		return w.cur[ci]
+	}
+	if ci, ok := pick(w.clientsWhere(func(t *txn) bool { return t != nil && t.closed() }), s.C); ok {
+		return w.cur[ci]
+	}
+	return nil
 }
 
 func (w *world) doUse(s Step) {
-	ci, ok := w.target(s)
-	if !ok {
+	t := w.target(s)
+	if t == nil {
 		w.counters["skipped_"+s.Op]++
 		return
 	}
-	t := w.cur[ci]
+	ci := t.client
 	k, v := keyOf(s.K), s.V
 	w.logf("%s client %d (%s %s %s) key=%s", s.Op, ci, t.path, t.mode(), t.state, k)
 	if t.state == stOpen {
@@ -954,12 +979,12 @@ func (w *world) contended(t *txn) bool {
 }
 
 func (w *world) doFinish(s Step) {
-	ci, ok := w.target(s)
-	if !ok {
+	t := w.target(s)
+	if t == nil {
 		w.counters["skipped_"+s.Op]++
 		return
 	}
-	w.finish(w.cur[ci], s.Op, s.Keep)
+	w.finish(t, s.Op, s.Keep)
 }
 
 func (w *world) finish(t *txn, op string, keep bool) {
@@ -1001,6 +1026,10 @@ func (w *world) finish(t *txn, op string, keep bool) {
 		}
 		if op == "commit" && !t.ro {
 			w.applyOverlay(t)
+			if len(t.overlay) > 0 {
+				w.commits++
+			}
+			t.commitsSince = w.commits
 		}
 		t.state = stDone
 		t.rec.how = op
@@ -1011,6 +1040,9 @@ func (w *world) finish(t *txn, op string, keep bool) {
 	}
 	// second and later finish calls: closed error, nothing changes
 	w.features["double_finish"] = true
+	if t.commitsSince != w.commits && len(t.overlay) > 0 && t.rec.how == "commit" && op == "commit" {
+		w.features["recommit_after_other_commits"] = true
+	}
 	if w.contended(t) {
 		w.features["double_finish_contended"] = true
 	}
